@@ -265,6 +265,14 @@ pub fn redeclarations(b: &Base) -> Vec<(String, Value)> {
         let sum: u64 = steps.iter().sum();
         add(format!("log_trace{}-fri-unchanged", tag), make(v, lc, &steps, last, nq, pow, nf, b.cols, Some(fu(sum) + last + lc)));
     }
+    // blow-up exponent re-declared with the tables following, FRI left as it was (the FRI input is no longer the
+    // evaluation domain; only the FRI description's own check can see it)
+    for (tag, v) in [("+1", lc + Felt::ONE), ("-1", lc - Felt::ONE), ("3", fu(3)), ("16", fu(16))] {
+        if v != lc {
+            let sum: u64 = steps.iter().sum();
+            add(format!("log_n_cosets{}-fri-unchanged", tag), make(lt, v, &steps, last, nq, pow, nf, b.cols, Some(fu(sum) + last + lc)));
+        }
+    }
     // FRI input size re-declared with inner heights following, tables unchanged
     for (tag, d) in [("+1", Felt::ONE), ("+2", Felt::TWO), ("-1", Felt::ZERO - Felt::ONE)] {
         let sum: u64 = steps.iter().sum();
@@ -507,6 +515,21 @@ pub fn run(ctx: &Ctx) -> Report {
                         json!({"kind": "cfg", "cfg": c, "security": fhex(s), "cols": [b.cols.0, b.cols.1]}), 1);
                 }
             }
+            // histories of length two: the accepted base is validated immediately before the case, on the same thread
+            // (a verdict must not depend on what was validated before; the predicate is the oracle, as above)
+            {
+                let mut hist: Vec<(String, String, Value)> = redeclarations(b).into_iter().map(|(n, c)| (format!("redeclare {}", n), format!("redeclare:{}", n.split('=').next().unwrap_or("")), c)).collect();
+                for d in &devs {
+                    let mut c = b.cfg.clone();
+                    d.apply(&mut c);
+                    hist.push((format!("{:?}", d), d.class(), c));
+                }
+                for (desc, class, c) in hist {
+                    let _ = run_case(&b.cfg, &secs[0].1, b.cols);
+                    record(&mut r, &b.name, &format!("after-base: {}", desc), &format!("after-base:{}", class), "exact", &c, &secs[0].1, b.cols,
+                        json!({"kind": "cfg", "cfg": c, "security": fhex(&secs[0].1), "cols": [b.cols.0, b.cols.1], "after": b.cfg}), 1);
+                }
+            }
             // 2 deviations (thorough): all pairs over the restricted menu
             if thorough {
                 let small = single_devs(&b.cfg, true);
@@ -549,6 +572,9 @@ pub fn replay(_ctx: &Ctx, case: &Value) -> super::ReplayResult {
     let sec = Felt::from_hex(case["security"].as_str().ok_or("security")?).map_err(|e| e.to_string())?;
     let cols = (case["cols"][0].as_u64().ok_or("cols")?, case["cols"][1].as_u64().ok_or("cols")?);
     let _ = Dev::from_json;
+    if let Some(before) = case.get("after") {
+        let _ = run_case(before, &sec, cols);
+    }
     match run_case(cfg, &sec, cols) {
         None => Err("configuration does not type".into()),
         Some((j, v)) => Ok((!violation_key("replay", &j, &v).is_empty(), format!("predicate={:?} validate={}", j, v.class()))),
